@@ -63,8 +63,16 @@ def gen_graph(rng, tdir):
             parts.append(('M', t))
             parts.append(w())
         if rng.random() < 0.3:
-            parts.append(('RAW', rng.choice(['{{missing.txt}}', '{{TOC}}', '{{' + 'n' * rng.choice([997, 998, 999, 1000, 1001, 1200]) + '}}', '{{unterminated', '}} {{', '{{sub/nope.*}}'])))
+            parts.append(('RAW', rng.choice(['{{missing.txt}}', '{{TOC}}', '{{' + 'n' * rng.choice([997, 998, 999, 1000, 1001, 1200]) + '}}', '{{unterminated', '}} {{', '{{sub/nope.*}}',
+                                           '{{ ' + 'stray opener followed by a long run of text ' * rng.choice([20, 23, 24, 30])])))
             parts.append(w())
+            if rng.random() < 0.5 and len(parts) > 3:
+                # not always at the end: what follows a malformed or over-long marker must still be found
+                raw, word = parts[-2], parts[-1]
+                del parts[-2:]
+                at = rng.randrange(0, len(parts) // 2 + 1) * 2
+                at = min(at, len(parts) - 1)
+                parts[at + 1:at + 1] = [raw, word] if isinstance(parts[at], str) else [word, raw]
         files[name] = dict(meta=meta, parts=parts, final_nl=rng.random() < 0.8, crlf=rng.random() < 0.1)
     g.files, g.names = files, names
     g.tdir = tdir
@@ -259,9 +267,9 @@ def work(job):
                         feat = 'base' if any(t['base'] for t in texts.values()) else ('wildcard' if '.*' in ''.join(t['text'] for t in texts.values()) else ('meta' if any(t['has_meta'] for n, t in texts.items() if n != top) else 'plain'))
                         r.violate('expansion-differs:%s' % feat, 'transcluded text differs from the reference expansion at char %d (%s graph)' % (k, g.kind), case,
                                   'expected: %s\ngot     : %s' % (core.show(exp[max(0, k - 60):k + 100]), core.show(got[max(0, k - 60):k + 100])))
-                    elif gman != man:
+                    elif gman != man and not any('\n' in x or '\r' in x for x in man):        # the worker reports the manifest one entry per line
                         r.violate('manifest-differs', 'manifest %s, reference %s' % ([os.path.relpath(x, tdir) for x in gman], [os.path.relpath(x, tdir) for x in man]), case)
-                    elif len(set(gman)) != len(gman):
+                    elif len(set(gman)) != len(gman) and not any('\n' in x or '\r' in x for x in man):
                         r.violate('manifest-duplicate', 'manifest lists a file twice: %s' % gman, case)
                 else:
                     r.stats['cyclic_graphs_terminated'] += 1
@@ -283,7 +291,7 @@ def work(job):
                     if rep2 is not None and rep2.status == 0 and not cyclic:
                         # the manifest functions expand for FORMAT_MMD... compare only when no wildcard is involved
                         gm2 = [l for l in rep2.fields[0].decode('utf-8', 'replace').split('\n') if l]
-                        if '.*' not in ''.join(t['text'] for t in texts.values()) and gm2 != man and fmt == 11:
+                        if '.*' not in ''.join(t['text'] for t in texts.values()) and gm2 != man and fmt == 11 and not any('\n' in x or '\r' in x for x in man):
                             r.violate('manifest-api-differs', 'mmd_*_transclusion_manifest gives %s, reference %s' % (gm2, man), dict(requests=[D.req_to_json('asan', 'MANIFEST', 0, D.EXT_CLI, 0, fam, [src, tdir, os.path.join(tdir, top)])], files=files_dump))
                 # CLI with a file argument agrees with the library
                 if i % 5 == 0:
